@@ -1,0 +1,10 @@
+//go:build verif
+
+package vm
+
+// VerifRefs returns the current value of the VM's stack item reference
+// counter. It exists only under the `verif` build tag (read-only accessor for
+// external verification harnesses).
+func (v *VM) VerifRefs() int {
+	return int(v.refs)
+}
